@@ -1251,8 +1251,8 @@ def c30(run):
 @check("C31")
 def c31(run):
     r, path, n, rej = run.trace_leg("repro", ["machine", "kind=repro"], spec="TV_Pairs", cfg="TV_Pairs.cfg",
-                                    verdict=PAIRV, expect_all=False)
-    run.trace_leg("repro_conf", ["machine", "kind=repro"], verdict=["newok", "panic"], path=path)
+                                    verdict=PAIRV, expect_all=False, timeout=9000)
+    run.trace_leg("repro_conf", ["machine", "kind=repro"], verdict=["newok", "panic"], path=path, timeout=9000)
     # seeded timers driven directly (exact ranges widened later, range notations, toggles): same seed, same sequence
     run.trace_leg("timer_seed", ["timer"], spec="TV_Pairs", cfg="TV_Pairs.cfg", verdict=PAIRV, expect_all=False)
     return run.finish(
